@@ -1427,6 +1427,8 @@ class Wrapc(util.WrapperMixin):
             if var_typemap:
                 for include in var_typemap.cxx_header:
                     self.capsule_include[include] = True
+                for include in var_typemap.impl_header:
+                    self.capsule_include[include] = True
 
         return self.capsule_code[name][0]
 
@@ -1476,8 +1478,10 @@ class Wrapc(util.WrapperMixin):
                 util.append_format_cmds(
                     del_lines, intent_blk, "destructor", fmt
                 )
+                # The destructor names the declared type
+                # (std::vector<int>), not the template argument.
                 fmt.idtor = self.add_capsule_code(
-                    destructor_name, ntypemap, del_lines
+                    destructor_name, ast.typemap, del_lines
                 )
             else:
                 fmt.idtor = self.capsule_code[destructor_name][0]
